@@ -411,9 +411,10 @@ def r4(ctx) -> None:
                 inc = t.without(()).terms and (t.terms.get((), 0) == 1) and len(t.terms) == 2
                 at = [a for a in t.atoms()]
                 from_int = any(a[0] == "call" and a[1] == "int" for a in at)
-                from_last = "[-1]" in norm(lib.stmt_of(
-                    [d for d in flw.defs_of(norm(v.value).split("+")[0].strip())][0].stmt)) if flw.defs_of(
-                    norm(v.value).split("+")[0].strip()) else False
+                # the number comes from the last entry of the sorted list (temporaries looked through)
+                nm = norm(v.value).split("+")[0].strip()
+                from_last = "[-1]" in lib.xnorm(flw, v.value, r) or any(
+                    d.value is not None and "[-1]" in lib.xnorm(flw, d.value, d.stmt) for d in flw.defs_of(nm))
                 ctx.ob("C18-R4", "writer/next-number", bool(inc and from_int and from_last), w, r,
                        "the next run number is int(<suffix of the last sorted previous run>) + 1",
                        [f"number term: {t!r}"])
